@@ -109,6 +109,26 @@ def _judge(case):
         err = render_ok(third, {tuple(before) + ('tail', 'more')})
         if err:
             bad('render-after-append', err)
+        # other ROUTES by which the same text can get into a comment: += / append of the value itself, of a flat list
+        # holding it, of a one-key dict holding it - onto a comment that already has a first line
+        if isinstance(enc, dict) and 's' in enc:
+            for route in ('iadd-value', 'iadd-flat-list', 'append-flat-list', 'iadd-dict', 'iadd-list-in-list'):
+                c3 = Comment('first')
+                val = R.build(enc, TextBlock)
+                if route == 'iadd-value':
+                    c3 += val
+                elif route == 'iadd-flat-list':
+                    c3 += [val, 'last']
+                elif route == 'append-flat-list':
+                    c3.append([val, 'last'])
+                elif route == 'iadd-dict':
+                    c3 += {'k': val}
+                else:
+                    c3 += [[val], 'last']
+                tail_ = ('last',) if route in ('iadd-flat-list', 'append-flat-list', 'iadd-list-in-list') else ()
+                err = render_ok(str(c3), {('first',) + o + tail_ for o in opts})
+                if err:
+                    bad(f'render-after-{route}', err)
         # a (deep) copy of a comment is a comment: it renders the same text, before and after extension
         import copy  # pylint: disable=import-outside-toplevel
         for how in ('deepcopy', 'copy', 'deepcopy-in-container'):
